@@ -95,6 +95,37 @@ theorem C17_prefix_smaller_order_dependent_witness :
     smallerPreFix ⟨5, 2⟩ ⟨5, 3⟩ ≠ smallerPreFix ⟨5, 3⟩ ⟨5, 2⟩ := by decide
 
 
+/-- MinRow: whatever the grouping and the arrival order, the result is the smallest row id some
+shard reports with a positive count, with the TOTAL count over the shards reporting that row. -/
+theorem C17_minRow_total (groups : List (List Pair)) (h : ∀ g ∈ groups, ∀ x ∈ g, PairValid x) :
+    mapReduce minRowReduce .zero groups = Spec.minRow groups.flatten := by
+  rw [C17_group C17_minRow_laws groups h]
+  have hv : ∀ x ∈ groups.flatten, PairValid x := by
+    intro x hx; rcases mem_flatten.mp hx with ⟨g, hg, hxg⟩; exact h g hg x hxg
+  generalize groups.flatten = l at hv
+  induction l with
+  | nil => rfl
+  | cons x xs ih =>
+    have hxs : ∀ y ∈ xs, PairValid y := fun y hy => hv y (by simp [hy])
+    rw [reduceAll_cons C17_minRow_laws x xs (hv x (by simp)) hxs, ih hxs, spec_minRow_cons]
+
+theorem C17_maxRow_total (groups : List (List Pair)) (h : ∀ g ∈ groups, ∀ x ∈ g, PairValid x) :
+    mapReduce maxRowReduce .zero groups = Spec.maxRow groups.flatten := by
+  rw [C17_group C17_maxRow_laws groups h]
+  have hv : ∀ x ∈ groups.flatten, PairValid x := by
+    intro x hx; rcases mem_flatten.mp hx with ⟨g, hg, hxg⟩; exact h g hg x hxg
+  generalize groups.flatten = l at hv
+  induction l with
+  | nil => rfl
+  | cons x xs ih =>
+    have hxs : ∀ y ∈ xs, PairValid y := fun y hy => hv y (by simp [hy])
+    rw [reduceAll_cons C17_maxRow_laws x xs (hv x (by simp)) hxs, ih hxs, spec_maxRow_cons]
+
+example : (∀ g ∈ [[(⟨3, 2⟩ : Pair), ⟨5, 1⟩], [⟨3, 5⟩, ⟨0, 0⟩]], ∀ x ∈ g, PairValid x) ∧
+    mapReduce minRowReduce .zero [[(⟨3, 2⟩ : Pair), ⟨5, 1⟩], [⟨3, 5⟩, ⟨0, 0⟩]] = ⟨3, 7⟩ := by
+  refine ⟨?_, by decide⟩
+  simp [PairValid]
+
 /-! ## Row.Merge — the reducer of every bitmap call (Row, Union, Intersect, Range, …)
 
 `RowWF r` (LemmasM) unfolds to: `(r.map Seg.shard).Pairwise (· < ·)` (segments strictly ascending
@@ -236,7 +267,7 @@ theorem C17_rowids (lim : Nat) (groups : List (List (List Nat)))
     funext a b; exact rowIDsMerge_eq lim a b
   have hm := mapReduce_kmergeLim (key := (id : Nat → Nat)) (comb := keepB) lim groups id id
     (fun _ _ _ _ => rfl)
-  simp only [map_id_fun, map_id, id_eq] at hm
+  simp only [map_id] at hm
   have hid : groups.map (fun g => g) = groups := map_id' groups
   rw [hf]
   rw [show map (fun x => x) groups = groups from map_id' groups] at hm
@@ -298,7 +329,7 @@ theorem C17_groupcounts (n lim : Nat) (groups : List (List (List GroupCount)))
     (fun g hg x hx => (h g hg x hx).2)]
   have hm := mapReduce_kmergeLim (key := GroupCount.group) (comb := addGC) lim groups id id
     (fun _ _ _ _ => rfl)
-  simp only [map_id_fun, map_id, id_eq] at hm
+  simp only [map_id] at hm
   rw [show map (fun x => x) groups = groups from map_id' groups] at hm
   rw [hm]
   unfold Spec.groupCounts
@@ -333,7 +364,7 @@ theorem C17_groupcounts_prefix (n lim : Nat) (full : List (List (List GroupCount
       exact (h g' hg' x' hx').2 z (mem_of_mem_take hz))]
   have hm := mapReduce_kmergeLim (key := GroupCount.group) (comb := addGC) lim full
     (fun x => x.take lim) id (by intro _ _ _ _; simp [take_take])
-  simp only [map_id_fun, map_id, id_eq] at hm
+  simp only [map_id] at hm
   rw [show map (fun x => x) full = full from map_id' full] at hm
   rw [hm]
   unfold Spec.groupCounts
